@@ -64,6 +64,17 @@ def cases(tier, seed):
                     "p": {"crowd_prob": 0.6, "crowd_heavy_prob": 1.0, "minlen": 5, "maxlen": 9, "na": False, "waters": [0, 3],
                           "hydrogens": ["none"], "pool": ["ARG", "LYS", "GLU", "GLN", "MET", "ILE", "LEU", "TRP", "PHE",
                                                           "TYR", "HIS", "ASN", "ASP", "THR", "SER"]}})
+    # acid-rich, densely packed, hydrated structures through the pKa route: protonated carboxylic acids whose hydroxyl
+    # hydrogen is tried on either oxygen (atoms appear, move and disappear between queries)
+    nacid = 12 if tier == "quick" else 1500
+    rnga = random.Random(seed * 97 + 3)
+    for i in range(nacid):
+        ff = ["AMBER", "CHARMM", "PARSE", "TYL06", "PEOEPB", "SWANSON"][i % 6]
+        out.append({"kind": "pipe", "w": "synth", "seed": seed * 930011 + i, "ff": ff,
+                    "opts": [f"--ff={ff}"] + pkastub.titration_opts(rnga),
+                    "p": {"dense_prob": 1.0, "minlen": 4, "maxlen": 8, "na": False, "waters": [3, 6, 10],
+                          "hydrogens": ["none", "none", "all"], "carboxyl_asym_prob": 0.4,
+                          "pool": ["ASP", "GLU", "ASP", "GLU", "ASP", "GLU", "SER", "THR", "ASN", "LYS", "HIS", "TYR"]}})
     return out
 
 
